@@ -3,8 +3,10 @@ import OpdaProofs.NoisyBisect
 import OpdaProofs.NoisyLogic
 import OpdaProofs.NoisyReal
 import OpdaProofs.NoisyInv
+import OpdaProofs.NoisyConv
+import OpdaProofs.NoisyAccuracy
 /-!
-# C07 — NoisyQuadratic quantile function inverts its cdf  *(proof of the bisection logic; accuracy conditional)*
+# C07 — NoisyQuadratic quantile function inverts its cdf  *(proof of the bisection logic; accuracy proved for even `c` in exact arithmetic, conditional otherwise)*
 
 Property theorems only.  They are about `Opda.Noisy.ppf` / `ppfBisect` / `bisect`, the polymorphic
 definitions the driver evaluates at `Float` and that `harness/corr_C07.py` ties to
@@ -13,10 +15,17 @@ literally an instance of `Bisect.run`, the object of the monotonicity theorem.  
 bisection is `Opda.Noisy.cdf F d` for an **arbitrary** record `F` (any `pow`, `Φ`, `φ`, `cos`, table …),
 so "ppf is non-decreasing" needs no monotonicity of the (float) cdf.
 
-**Not theorems**: `|cdf(ppf q) − q| ≤ 1e-5` itself (it follows from `bisect_accuracy` once the cdf is
-monotone and `L`-Lipschitz with `L·(b−a+12o)/2^30 +` cut-off tail mass `≤ 1e-5`; the Lipschitz constant of
-the real cdf depends on C06's numerics) — measured every run with the code's own cdf; that
-`normal_ppf(0) = −∞`, `normal_ppf(1) = +∞` in the `normal` regime (a fact about `erfinv`, compared).
+**Accuracy clause `|cdf(ppf q) − q| ≤ 1e-5`**: *proved* over `ℝ` (exact arithmetic, `realFns`: real `Φ`, `φ`, `rpow`)
+for **even `c = 2k`, `1 ≤ k ≤ 50`**, every `a ≤ b`, `o ≥ 0` other than the point mass, both shapes, every `q ∈ (0,1)`
+(`cdf_ppf_even_all_regimes_partial`; series regime: `cdf_ppf_even_series_partial`, from C06's Model = Spec for even `c`,
+the Lipschitz constant `k/(b−a)` of the mixture cdf and the Chernoff bound `Φ(−6) ≤ e^{−18}`); for **every `c`** in the
+noiseless and normal regimes (`cdf_ppf_noiseless_real`, `cdf_ppf_normal_real`: exact inverses).
+
+**Not theorems**: the accuracy clause for **odd `c` in the series regime** (there the cdf is a piecewise-polynomial
+approximation whose monotonicity/Lipschitz constant depend on C06's numerics; `bisect_accuracy` stays conditional) and
+for `c > 100`; everything about **IEEE rounding** (the theorems are at `ℝ`; at `Float` the residual is measured every run
+with the code's own cdf); that `normal_ppf(0) = −∞`, `normal_ppf(1) = +∞` in the `normal` regime (a fact about
+`erfinv`, compared).
 -/
 namespace Opda.Props.C07
 open Opda.Noisy
@@ -111,6 +120,90 @@ theorem cdf_ppf_noiseless_real (T : List (ℕ × List (Entry ℝ))) (ninf pinf :
     cdf (realFns T ninf pinf) d (ppf (realFns T ninf pinf) d q) = q :=
   Opda.Noisy.cdf_ppf_noiseless T ninf pinf d hab ho hc hp h q hq0 hq1
 
+/-! ### the accuracy clause for even `c`, exact real arithmetic -/
+
+section even
+variable (T : List (ℕ × List (Entry ℝ))) (ninf pinf : ℝ)
+
+/-- **Chernoff bound for the standard normal**: `Φ(−t) ≤ exp(−t²/2)` for `t ≥ 0`, `Φ` the distribution function of
+`gaussianReal 0 1`. -/
+theorem gaussian_tail (t : ℝ) (ht : 0 ≤ t) : Phi (-t) ≤ Real.exp (-(t ^ 2) / 2) := Phi_neg_le_exp t ht
+
+/-- … hence `Φ(−6) ≤ e^{−18} ≤ 2^{−18} < 3.82e-6` (true value `9.9e-10`): the mass the bracket `[a−6o, b+6o]` may cut
+off on either side. -/
+theorem gaussian_tail_six : Phi (-6) ≤ 1 / 262144 := Phi_neg_six_le
+
+/-- **(i) the even-`c` model cdf is monotone** (series regime, `ℝ`, `c = 2k ≥ 2`, both shapes, on all of `ℝ`). -/
+theorem cdf_even_monotone (d : Params ℝ) (k : ℕ) (hk : 1 ≤ k) (hc : d.c = 2 * k) (hab : d.a ≤ d.b)
+    (hp : pointMass (realFns T ninf pinf) d = false) (h : regime (realFns T ninf pinf) d = .nothing)
+    (x y : ℝ) (hxy : x ≤ y) : cdf (realFns T ninf pinf) d x ≤ cdf (realFns T ninf pinf) d y :=
+  cdf_even_mono T ninf pinf d k hk hc hab hp h x y hxy
+
+/-- **(ii) Lipschitz constant `k/(b−a) = c/(2(b−a))`** of the even-`c` model cdf, for every noise level of the series
+regime: `cdf y − cdf x ≤ k/(b−a)·(y − x)` for `x ≤ y` (the noise-free density is `≤ k/(b−a)`, convolution keeps it). -/
+theorem cdf_even_lipschitz (d : Params ℝ) (k : ℕ) (hk : 1 ≤ k) (hc : d.c = 2 * k) (hab : d.a ≤ d.b)
+    (hp : pointMass (realFns T ninf pinf) d = false) (h : regime (realFns T ninf pinf) d = .nothing)
+    (x y : ℝ) (hxy : x ≤ y) :
+    cdf (realFns T ninf pinf) d y - cdf (realFns T ninf pinf) d x ≤ (k:ℝ) / (d.b - d.a) * (y - x) :=
+  Opda.Noisy.cdf_even_lipschitz T ninf pinf d k hk hc hab hp h x y hxy
+
+/-- the same two facts for the Spec itself, the mixture `H(t) = ∫₀¹ Φ((t−x)/s) d(x^k)`: non-decreasing and
+`k`-Lipschitz in `t`, for every `s > 0`. -/
+theorem mixture_monotone_lipschitz (k : ℕ) (s : ℝ) (hk : 1 ≤ k) (hs : 0 < s) (t t' : ℝ) (h : t ≤ t') :
+    mixture k s t ≤ mixture k s t' ∧ mixture k s t' - mixture k s t ≤ k * (t' - t) :=
+  ⟨mixture_mono k s hk hs t t' h, mixture_lipschitz k s hk hs t t' h⟩
+
+/-- **(iv) tails**: the even-`c` model cdf at the ends of the bisection bracket is within `Φ(−6)` of `0` resp. `1`. -/
+theorem cdf_even_tails (d : Params ℝ) (k : ℕ) (hk : 1 ≤ k) (hc : d.c = 2 * k) (hab : d.a ≤ d.b)
+    (hp : pointMass (realFns T ninf pinf) d = false) (h : regime (realFns T ninf pinf) d = .nothing) :
+    cdf (realFns T ninf pinf) d (d.a - 6 * d.o) ≤ Phi (-6)
+      ∧ 1 - Phi (-6) ≤ cdf (realFns T ninf pinf) d (d.b + 6 * d.o) :=
+  ⟨cdf_even_tail_lo T ninf pinf d k hk hc hab hp h, cdf_even_tail_hi T ninf pinf d k hk hc hab hp h⟩
+
+/-- **accuracy with an explicit bound, every even `c ≥ 2`** (series regime, exact real arithmetic, both shapes,
+`q ∈ (0,1)`): `|cdf(ppf q) − q| ≤ k(1 + 12·o/(b−a))/2^30 + Φ(−6)` — Lipschitz constant × final bracket width, plus
+the Gaussian mass beyond 6 standard deviations.  `_partial`: even `c` only, `ℝ` only (odd `c`, IEEE rounding: compared). -/
+theorem cdf_ppf_even_explicit_partial (d : Params ℝ) (k : ℕ) (hk : 1 ≤ k) (hc : d.c = 2 * k) (hab : d.a ≤ d.b)
+    (hp : pointMass (realFns T ninf pinf) d = false) (h : regime (realFns T ninf pinf) d = .nothing)
+    (q : ℝ) (hq0 : 0 < q) (hq1 : q < 1) :
+    |cdf (realFns T ninf pinf) d (ppf (realFns T ninf pinf) d q) - q|
+      ≤ (k:ℝ) * (1 + 12 * (d.o / (d.b - d.a))) / 2 ^ 30 + Phi (-6) :=
+  cdf_ppf_even_explicit T ninf pinf d k hk hc hab hp h q hq0 hq1
+
+/-- **the accuracy clause, unconditional, for even `c = 2k`, `1 ≤ k ≤ 50`** (so in particular `c ∈ {2,4,6,8,10}`):
+in the series regime (`pointMass = false`, `regime = .nothing`, i.e. `a < b`, `1e-6 ≤ o/(b−a) < 10` by
+`regime_nothing_iff`), at the real instance `realFns T ninf pinf` (any table, any stand-ins for `±∞`), both shapes,
+every `q ∈ (0,1)`: `|cdf(ppf q) − q| ≤ 1e-5` in exact real arithmetic (the bound actually obtained is
+`(121k + 4096)/2^30`, `≤ 4.4e-6` for `c ≤ 10`).  `a < b` and `o > 0` follow from the regime (`nothing_pos`), so only
+`a ≤ b` is assumed.  `_partial`: missing for the full clause are **odd `c`** in this regime (the cdf is then a
+piecewise-polynomial approximation; only compared), `c > 100`, and **IEEE rounding** (the statement is about the model
+term at `ℝ`, not at `Float`; the `Float` residual is measured on every run). -/
+theorem cdf_ppf_even_series_partial (d : Params ℝ) (k : ℕ) (hk : 1 ≤ k) (hk50 : k ≤ 50) (hc : d.c = 2 * k)
+    (hab : d.a ≤ d.b) (hp : pointMass (realFns T ninf pinf) d = false)
+    (h : regime (realFns T ninf pinf) d = .nothing) (q : ℝ) (hq0 : 0 < q) (hq1 : q < 1) :
+    |cdf (realFns T ninf pinf) d (ppf (realFns T ninf pinf) d q) - q| ≤ 1e-5 :=
+  cdf_ppf_even T ninf pinf d k hk hk50 hc hab hp h q hq0 hq1
+
+/-- **inverse clause, normal regime, exact arithmetic, every `c`**: for `o ≥ 10 (b−a)` (not the point mass) the closed
+forms `ppf q = mean + sd·Φ⁻¹(q)`, `cdf y = Φ((y−mean)/sd)` are exact inverses on `(0,1)` over `ℝ`
+(`Φ⁻¹` the generalised inverse of the real `Φ`).  At `Float` the residual is that of `erf`/`erfinv` (compared). -/
+theorem cdf_ppf_normal_real (d : Params ℝ) (hab : d.a ≤ d.b)
+    (hp : pointMass (realFns T ninf pinf) d = false) (h : regime (realFns T ninf pinf) d = .normal)
+    (q : ℝ) (hq0 : 0 < q) (hq1 : q < 1) :
+    cdf (realFns T ninf pinf) d (ppf (realFns T ninf pinf) d q) = q :=
+  cdf_ppf_normal T ninf pinf d hab hp h q hq0 hq1
+
+/-- **the accuracy clause for even `c ≤ 100` in all three regimes, exact real arithmetic**: every `a ≤ b`, `o ≥ 0`
+except the point mass `a = b ∧ o = 0` (where `cdf` jumps and the clause is meaningless), both shapes, `q ∈ (0,1)`.
+`_partial`: odd `c` (series regime) and IEEE rounding are missing, as above. -/
+theorem cdf_ppf_even_all_regimes_partial (d : Params ℝ) (k : ℕ) (hk : 1 ≤ k) (hk50 : k ≤ 50) (hc : d.c = 2 * k)
+    (hab : d.a ≤ d.b) (ho : 0 ≤ d.o) (hp : pointMass (realFns T ninf pinf) d = false)
+    (q : ℝ) (hq0 : 0 < q) (hq1 : q < 1) :
+    |cdf (realFns T ninf pinf) d (ppf (realFns T ninf pinf) d q) - q| ≤ 1e-5 :=
+  cdf_ppf_even_all T ninf pinf d k hk hk50 hc hab ho hp q hq0 hq1
+
+end even
+
 /-! ### non-vacuity -/
 
 /-- the hypotheses of the monotonicity / end-point theorems are satisfiable: series regime at `ℝ`, with
@@ -129,6 +222,28 @@ example : Lawful (realFns [] (-1) 2)
 example (c : ℝ) : (∀ x y : ℝ, (0:ℝ) ≤ x → x ≤ y → y ≤ 1 → (fun _ : ℝ => c) x ≤ (fun _ : ℝ => c) y)
     ∧ (∀ x y : ℝ, (0:ℝ) ≤ x → x ≤ y → y ≤ 1 → (fun _ : ℝ => c) y - (fun _ : ℝ => c) x ≤ 0 * (y - x)) := by
   constructor <;> intros <;> simp
+
+/-- the hypotheses of the even-`c` accuracy theorems are satisfiable: `a=0, b=1, c=4 (k=2), o=1/10`, convex, lies in
+the series regime; the theorem then applies at, e.g., `q = 1/2` -/
+example : pointMass (realFns [] 0 0) { a := 0, b := 1, c := 4, o := 1/10, convex := true } = false
+    ∧ regime (realFns [] 0 0) { a := 0, b := 1, c := 4, o := 1/10, convex := true } = .nothing
+    ∧ (1 ≤ 2 ∧ 2 ≤ 50 ∧ ({ a := 0, b := 1, c := 4, o := 1/10, convex := true } : Params ℝ).c = 2 * 2)
+    ∧ |cdf (realFns [] 0 0) { a := 0, b := 1, c := 4, o := 1/10, convex := true }
+          (ppf (realFns [] 0 0) { a := 0, b := 1, c := 4, o := 1/10, convex := true } (1/2)) - 1/2| ≤ 1e-5 := by
+  have hp : pointMass (realFns [] 0 0) { a := 0, b := 1, c := 4, o := 1/10, convex := true } = false := by
+    rw [Bool.eq_false_iff, Ne, pointMass_iff (realFns_lawful [] 0 0)]; norm_num
+  have hr : regime (realFns [] 0 0) { a := 0, b := 1, c := 4, o := 1/10, convex := true } = .nothing := by
+    rw [regime_nothing_iff (realFns_lawful [] 0 0)]; norm_num
+  exact ⟨hp, hr, ⟨by norm_num, by norm_num, rfl⟩,
+    cdf_ppf_even_series_partial [] 0 0 _ 2 (by norm_num) (by norm_num) rfl (by norm_num) hp hr (1/2)
+      (by norm_num) (by norm_num)⟩
+
+/-- … and a concave setting in the normal regime: `a=0, b=1, c=3, o=20` -/
+example : pointMass (realFns [] 0 0) { a := 0, b := 1, c := 3, o := 20, convex := false } = false
+    ∧ regime (realFns [] 0 0) { a := 0, b := 1, c := 3, o := 20, convex := false } = .normal := by
+  constructor
+  · rw [Bool.eq_false_iff, Ne, pointMass_iff (realFns_lawful [] 0 0)]; norm_num
+  · rw [regime_normal_iff (realFns_lawful [] 0 0)]; norm_num
 
 end Opda.Props.C07
 
